@@ -24,6 +24,15 @@ type Ctx struct {
 	ircF   *ircFacts
 }
 
+// alsoRuns lists, per property, rule sets of other properties whose obligations are necessary conditions of it too.
+var alsoRuns = map[string][]string{
+	"C05": {"C02", "C09"}, // acknowledged entries survive snapshots / the store honours its contract
+	"C07": {"C09"},        // the marked entry lands in a store that honours its contract
+	"C02": {"C03"},        // folding relies on complete state serialization
+	"C11": {"C17"},        // ended sessions must leave the session table, otherwise their secret keeps working
+	"C10": {"C07"},        // the tombstone written for a message of death must keep the client message id
+}
+
 // Rule set registry: property id -> function.
 var registry = map[string]func(*Ctx){}
 
@@ -47,6 +56,15 @@ func Run(id string, p *load.Program, tier string) *report.Result {
 	}
 	c := &Ctx{P: p, Tier: tier, R: report.NewResult(id), graphs: map[ast.Node]*cfgx.Graph{}}
 	f(c)
+	// rule sets of other properties that state necessary conditions of this one (obligations appear as <id>/<rule>)
+	for _, dep := range alsoRuns[id] {
+		if g := registry[dep]; g != nil {
+			expl, rules := c.R.Explanation, c.R.Rules
+			g(c)
+			c.R.Explanation = expl + " Additionally runs the rule set of " + dep + " (its obligations are necessary conditions of this property as well; they appear as " + id + "/" + dep + ".*)."
+			c.R.Rules = append(rules, dep+".* (borrowed)")
+		}
+	}
 	return c.R
 }
 
